@@ -1,6 +1,6 @@
 use crate::net::EventLoops;
 use libc::{fd_set, timeval};
-use std::ffi::{c_int, c_uint};
+use std::ffi::c_int;
 use std::time::Duration;
 
 trait SelectSyscall {
@@ -64,12 +64,13 @@ impl<I: SelectSyscall> SelectSyscall for NioSelectSyscall<I> {
             }
         }
         let mut t = if timeout.is_null() {
-            c_uint::MAX
+            u64::MAX
         } else {
+            // milliseconds, rounded up so that the call does not return early
             unsafe {
-                c_uint::try_from((*timeout).tv_sec).expect("overflow")
-                    .saturating_mul(1_000_000)
-                    .saturating_add(c_uint::try_from((*timeout).tv_usec).expect("overflow"))
+                u64::try_from((*timeout).tv_sec).expect("overflow")
+                    .saturating_mul(1_000)
+                    .saturating_add(u64::try_from((*timeout).tv_usec).expect("overflow").div_ceil(1_000))
             }
         };
         let mut o = timeval {
@@ -96,8 +97,8 @@ impl<I: SelectSyscall> SelectSyscall for NioSelectSyscall<I> {
             if r != 0 || t == 0 {
                 break;
             }
-            _ = EventLoops::wait_event(Some(Duration::from_millis(u64::from(t.min(x)))));
-            if t != c_uint::MAX {
+            _ = EventLoops::wait_event(Some(Duration::from_millis(t.min(x))));
+            if t != u64::MAX {
                 t = t.saturating_sub(x);
             }
             if x < 16 {
